@@ -1427,3 +1427,116 @@ Proof.
   - injection Ha as <- <-. apply ref_none in Hk. exists (1%N, @None str), (mk_state ts rs). split; [|exact HR].
     apply runs_intro. cbn [run_op]. now apply through_none.
 Qed.
+
+(* ------------------------------------------------------------------ Relations::replace *)
+(* a mutation that consumes the operand in register qc (its tree tc becomes part of the main tree) *)
+Lemma refs_transport_x ts ts' rs F tid tc l l' phi h qc :
+  keeps phi ->
+  (forall j sl, nth_error ts j = Some sl -> j <> tid -> j <> tc -> nth_error ts' j = Some sl) ->
+  (forall g, h_tid g < length ts -> h_tid g <> tid -> h_tid g <> tc -> F g = g) ->
+  F (mk_hnd tid []) = mk_hnd tid [] ->
+  (forall i ci e, nth_entry l i = Some (ci, e) ->
+     ref_ok ts' tid l' (Some (F (mk_hnd tid [ci]))) (Some (phi (ELive i)))) ->
+  (forall i j ci e cj, nth_entry l i = Some (ci, e) -> nth_index is_relation j (lentry_children e) = Some cj ->
+     ref_ok ts' tid l' (Some (F (mk_hnd tid [ci; cj]))) (Some (phi (RLive i j)))) ->
+  (forall q x g, q <> qc -> h q = Some x -> is_new x = true -> reg_at rs q = Some g -> h_tid g <> tc) ->
+  (forall q, ref_ok ts tid l (reg_at rs q) (h q)) ->
+  forall q, q <> qc -> ref_ok ts' tid l' (reg_at (map (option_map F) rs) q) (remap phi h q).
+Proof.
+  intros K Hts HF H0 HE HR Hn Hok q Hq. rewrite reg_at_map. unfold remap. specialize (Hok q). specialize (Hn q).
+  destruct (h q) as [x|], (reg_at rs q) as [g|]; cbn [option_map]; try exact Hok; try (destruct x; cbn in Hok; contradiction).
+  pose proof (K x) as Kx. specialize (Hn x g Hq eq_refl). destruct x; cbn [ref_ok] in Hok.
+  - rewrite Kx. subst g. cbn [ref_ok]. exact H0.
+  - destruct Hok as (ci & e & He & ->). eapply HE; exact He.
+  - destruct Hok as (ci & e & cj & He & Hj & ->). eapply HR; eauto.
+  - rewrite Kx. destruct Hok as (te & -> & Hne & Ht & He). cbn [ref_ok]. specialize (Hn eq_refl eq_refl). cbn [h_tid] in Hn.
+    rewrite HF; [exists te; auto|cbn [h_tid]; eapply nth_error_Some_lt; exact Ht|exact Hne|exact Hn].
+  - rewrite Kx. destruct Hok as (te & -> & Hne & Ht & He). cbn [ref_ok]. specialize (Hn eq_refl eq_refl). cbn [h_tid] in Hn.
+    rewrite HF; [exists te; auto|cbn [h_tid]; eapply nth_error_Some_lt; exact Ht|exact Hne|exact Hn].
+  - rewrite Kx. exact I.
+Qed.
+Lemma uniq_consume ts rs F tid tc l phi h qc :
+  keeps phi ->
+  (forall g, h_tid g < length ts -> h_tid g <> tid -> h_tid g <> tc -> F g = g) ->
+  (forall q x g, q <> qc -> h q = Some x -> is_new x = true -> reg_at rs q = Some g -> h_tid g <> tc) ->
+  (forall q, ref_ok ts tid l (reg_at rs q) (h q)) ->
+  new_uniq rs h -> new_uniq (set_reg_l qc None (map (option_map F) rs)) (upd qc None (remap phi h)).
+Proof.
+  intros K HF Hn Hok U q q' y y' g g' Hq Hy Hy' Ny Ny'. rewrite !reg_at_set, !reg_at_map. unfold upd, remap in Hy, Hy'.
+  destruct (q =? qc) eqn:E1; [discriminate|]. destruct (q' =? qc) eqn:E2; [discriminate|].
+  apply Nat.eqb_neq in E1, E2.
+  assert (Hnew : forall q0 y0, q0 <> qc -> option_map phi (h q0) = Some y0 -> is_new y0 = true ->
+            h q0 = Some y0 /\ forall g0, option_map F (reg_at rs q0) = Some g0 -> reg_at rs q0 = Some g0).
+  { intros q0 y0 Hq0 H0 N0. destruct (h q0) as [x0|] eqn:E0; [|discriminate]. cbn in H0. injection H0 as <-.
+    pose proof (K x0) as K0. pose proof (Hok q0) as Hok0. rewrite E0 in Hok0. pose proof (Hn q0 x0) as Hn0.
+    destruct x0; try (rewrite K0 in N0; discriminate); try congruence.
+    all: rewrite K0; split; [reflexivity|]; intros g0 G0; destruct (reg_at rs q0) as [g1|] eqn:Eg1; [|discriminate];
+      cbn in Hok0; destruct Hok0 as (te & -> & Hne & Ht & _); cbn in G0;
+      specialize (Hn0 _ Hq0 E0 eq_refl eq_refl); cbn [h_tid] in Hn0;
+      rewrite HF in G0; [exact G0|cbn [h_tid]; eapply nth_error_Some_lt; exact Ht|exact Hne|exact Hn0]. }
+  destruct (Hnew _ _ E1 Hy Ny) as (H1 & G1). destruct (Hnew _ _ E2 Hy' Ny') as (H2 & G2).
+  intros Hg Hg'. apply (U q q' y y' g g'); auto.
+Qed.
+Lemma keeps_gone_entry p : keeps (gone_entry_ref p).
+Proof. intros []; cbn; try reflexivity; destruct (_ =? p); reflexivity. Qed.
+
+Lemma step_replace b sv st a i k a' tr : Rel b sv st a -> h_op (OReplace i k) a = Some (a', tr) ->
+  forallb operands_ok tr = true ->
+  exists out st', run_op fixed (OReplace i k) st = Ok (out, st') /\ Rel b sv st' a'.
+Proof.
+  destruct st as [ts rs]. intros HR Ha Ho. pose proof HR as (tid & ri & l & HT & Hw & Hc & H0 & Hok & U). cbn [trees regs] in *.
+  cbn [h_op] in Ha. pose proof (Hok (ereg k)) as Hk. destruct (h_reg a (ereg k)) as [x|] eqn:Ex.
+  2:{ injection Ha as <- <-. apply ref_none in Hk. exists (1%N, @None str), (mk_state ts rs). split; [|exact HR].
+      apply runs_intro. cbn [run_op]. unfold with_reg. rbind; [apply reg_at_has|]. rewrite Hk. rdone. }
+  destruct x; try discriminate. destruct (i <? length (h_f a)) eqn:Ei; [|discriminate]. injection Ha as <- <-.
+  cbn [forallb] in Ho. rewrite andb_true_r in Ho.
+  destruct (reg_at rs (ereg k)) as [gk|] eqn:Egk; [|contradiction]. cbn [ref_ok] in Hk. destruct Hk as (tc & -> & Htc & HE & Hnew).
+  pose proof (rel_root ts rs a tid l H0 Hok) as Hr0. pose proof (nth_error_Some_lt _ _ _ HT) as Hlt.
+  assert (Hx' : x_in_range (fst (lcontent l)) (AReplace i e) = true) by (rewrite Hc; exact Ei).
+  destruct (live_step_tree b (AReplace i e) l Hw Ho Hx') as (l' & Hal & _ & Hw' & Hc' & _).
+  cbn [a_op] in Hal. destruct (operand_lentry e) as [le|] eqn:Ele; [|discriminate].
+  assert (EG : centry_tree e = lentry_tree le).
+  { destruct e as [|r0 rs0]; [discriminate|]. cbn [operand_lentry] in Ele. injection Ele as <-. now apply centry_is_lentry. }
+  unfold a_replace in Hal. destruct (nth_index is_re i l) as [ci|] eqn:Eni; [|discriminate]. injection Hal as <-.
+  destruct (nth_index_re_split _ _ _ Eni) as (lp & e0 & lq & El & Lp & Li).
+  assert (He0 : nth_entry l i = Some (ci, e0)) by (rewrite El, <- Lp, <- Li; apply nth_entry_at).
+  assert (Lmp : length (map rt lp) = ci) by (now rewrite map_length).
+  assert (HG : get_path (ltree l) [] = Some (Node ROOT (map rt lp ++ lentry_tree e0 :: map rt lq))).
+  { cbn [get_path]. unfold ltree. rewrite El, map_app. reflexivity. }
+  destruct (splice_replace_spec_x ts rs 0 (ereg k) tid ri (ltree l) [] ROOT (map rt lp) (lentry_tree e0) (map rt lq) tc 0 (centry_tree e)
+              (reg_at_nth _ _ _ Hr0) (reg_at_nth _ _ _ Egk) HT HG HE (not_eq_sym Htc))
+    as (ts' & F & R & L & T' & N & O & S1 & S2 & A & B).
+  rewrite Lmp in *. cbn [app] in *.
+  assert (ET : upd_path (ltree l) [] (fun _ => Node ROOT (map rt lp ++ centry_tree e :: map rt lq)) = ltree (replace_at ci (RE le) l)).
+  { cbn [upd_path]. rewrite El, <- Lp, replace_at_split, EG. unfold ltree. rewrite map_app. reflexivity. }
+  rewrite ET in T'.
+  exists (0%N, @None str), (mk_state ts' (set_reg_l (ereg k) None (map (option_map F) rs))). split.
+  - apply runs_intro. cbn [run_op]. unfold with_reg. rbind; [apply reg_at_has|]. rewrite Egk. rbind; [|rdone].
+    unfold relations_replace. rbind; [apply runs_get_reg; apply reg_at_nth; exact Hr0|].
+    rbind; [eapply runs_children_of; [exact HT|reflexivity]|]. cbn [s_tree ltree children].
+    rewrite (nth_index_map rt is_entry is_re) by apply is_entry_rt. rewrite Eni.
+    rbind; [exact R|]. apply runs_set_reg.
+  - exists tid, ri, (replace_at ci (RE le) l). cbn [trees regs h_f h_reg].
+    split; [exact T'|]. split; [exact Hw'|]. split; [rewrite Hc', Hc; reflexivity|].
+    split; [rewrite upd_other by apply ereg_neq0; unfold remap; rewrite H0; reflexivity|].
+    assert (Hnc : forall q x g, q <> ereg k -> h_reg a q = Some x -> is_new x = true -> reg_at rs q = Some g -> h_tid g <> tc).
+    { intros q x g Hq Hx Nx Hg. apply (U q (ereg k) x (ENew e) g (mk_hnd tc []) Hq Hx Ex Nx eq_refl Hg Egk). }
+    assert (HF : forall g, h_tid g < length ts -> h_tid g <> tid -> h_tid g <> tc -> F g = g).
+    { intros g _ Hn1 Hn2. apply A; [exact Hn2|now apply above_other]. }
+    split.
+    + intros q. rewrite reg_at_set. unfold upd. destruct (q =? ereg k) eqn:Eq; [exact I|]. apply Nat.eqb_neq in Eq.
+      eapply (refs_transport_x ts ts' rs F tid tc l); [apply keeps_gone_entry| |exact HF| | | |exact Hnc|exact Hok|exact Eq].
+      * intros j sl Hj Hn1 Hn2. rewrite O; [exact Hj|exact Hn1|exact Hn2|eapply nth_error_Some_lt; exact Hj].
+      * apply A; [cbn [h_tid]; congruence|apply above_root].
+      * intros i0 c0 e1 H1. cbn [gone_entry_ref]. destruct (i0 =? i) eqn:Ei0; [exact I|]. apply Nat.eqb_neq in Ei0.
+        assert (Hc0 : c0 <> ci) by (intros ->; destruct (nth_entry_inj _ _ _ _ _ _ He0 H1); congruence).
+        cbn [ref_ok]. exists c0, e1. split.
+        -- rewrite (nth_entry_replace l i ci e0 le i0 c0 e1 He0 H1). apply Nat.eqb_neq in Ei0. now rewrite Ei0.
+        -- now rewrite B.
+      * intros i0 j0 c0 e1 cj H1 Hj. cbn [gone_entry_ref]. destruct (i0 =? i) eqn:Ei0; [exact I|]. apply Nat.eqb_neq in Ei0.
+        assert (Hc0 : c0 <> ci) by (intros ->; destruct (nth_entry_inj _ _ _ _ _ _ He0 H1); congruence).
+        cbn [ref_ok]. exists c0, e1, cj. split; [|split; [exact Hj|]].
+        -- rewrite (nth_entry_replace l i ci e0 le i0 c0 e1 He0 H1). apply Nat.eqb_neq in Ei0. now rewrite Ei0.
+        -- now rewrite B.
+    + eapply uniq_consume; [apply keeps_gone_entry|exact HF|exact Hnc|exact Hok|exact U].
+Qed.
